@@ -16,6 +16,7 @@ Directives (all start with `//@`):
   //@loop <N> [iter=<name>]                     followed by //@| clause lines
   //@closure <N> params="a: T; b: U" ret="(r: X)"   followed by //@| clause lines
   //@index var:fn var2:fn2                      R-index: `var[i]` on a foreign container becomes `fn(&var, i)`
+  //@const NAME:fn                              R-const: the module constant NAME becomes the call `fn()` (its value is extracted with kind=const)
   //@binop var-:fn var/:fn2                     R-binop: `var - e` / `&var - e` becomes `fn(var, e)` (operator stub)
   //@outtype <var> <Type>                       type ascription for a rule-introduced `let mut <var> = Vec::new();`
   //@anchor <name> scope=fn|loop:N pos=before|after|start|end [match="regex"] [nth=k]  + //@| lines
@@ -65,6 +66,7 @@ class BodyDirective:
         self.anchors = []    # {"name","scope","pos","match","nth","text":[lines]}
         self.index_map = {}  # R-index: variable -> indexing function
         self.binop_map = {}  # R-binop: "<var><op>" -> function
+        self.const_map = {}  # R-const: constant -> function
         self.outtypes = {}   # name of a rule-introduced collection variable -> its type (ascription only)
 
 
@@ -106,7 +108,7 @@ def parse_template(path):
                 cur.loops[int(pos[0])] = sub
             elif word == "closure":
                 pos, kv = parse_kv(rest)
-                sub = {"params": [p.strip() for p in kv.get("params", "").split(";") if p.strip()], "ret": kv.get("ret"), "text": []}
+                sub = {"params": [p.strip() for p in kv.get("params", "").split(";") if p.strip()], "ret": kv.get("ret"), "bind": kv.get("bind"), "text": []}
                 cur.closures[int(pos[0])] = sub
             elif word == "anchor":
                 pos, kv = parse_kv(rest)
@@ -116,6 +118,10 @@ def parse_template(path):
                 for tok in rest.split():
                     k, v = tok.split(":")
                     cur.index_map[k] = v
+            elif word == "const":
+                for tok in rest.split():
+                    k, v = tok.split(":")
+                    cur.const_map[k] = v
             elif word == "binop":
                 for tok in rest.split():
                     k, v = tok.rsplit(":", 1)
@@ -359,7 +365,7 @@ def assemble(unit, canary=False):
             bd = s[1]
             kv = bd.kv
             it = {"id": kv["id"], "file": kv["file"], "kind": "fn", "name": kv["name"], "rules": bd.rules,
-                  "closures": {str(k): {"params": v["params"]} for k, v in bd.closures.items()},
+                  "closures": {str(k): ({"params": v["params"], "bind": v["bind"]} if v.get("bind") else {"params": v["params"]}) for k, v in bd.closures.items()},
                   "anchors": [{"name": a["name"], "scope": a["scope"], "pos": a["pos"], "match": a["match"], "nth": a["nth"]} for a in bd.anchors]}
             if canary:
                 # reachability canary: `assert(false)` at the end of the body (after all other end-anchors);
@@ -367,6 +373,9 @@ def assemble(unit, canary=False):
                 it["anchors"].append({"name": "__canary", "scope": "fn", "pos": "end", "match": "", "nth": 0})
             it["index_map"] = bd.index_map
             it["binop_map"] = bd.binop_map
+            it["const_map"] = bd.const_map
+            if kv.get("kind"):
+                it["kind"] = kv["kind"]
             for k in ("impl_self", "impl_trait", "in_trait"):
                 if k in kv:
                     it[k] = kv[k]
@@ -402,7 +411,8 @@ def assemble(unit, canary=False):
             props = [p for p in bd.kv.get("props", "").split(",") if p]
             # find the contract header lines (walk back from here to the `fn` line)
             j = len(asm.lines) - 1
-            while j >= 0 and not re.search(r"\bfn\s+" + re.escape(bd.kv["name"]) + r"\b", asm.lines[j]):
+            hdr_name = bd.kv.get("as", bd.kv["name"])
+            while j >= 0 and not re.search(r"\bfn\s+" + re.escape(hdr_name) + r"\b", asm.lines[j]):
                 j -= 1
             if j < 0:
                 raise Undecided(f"unit {unit}: no `fn {bd.kv['name']}` header before //@body {bd.kv['id']}")
